@@ -608,3 +608,143 @@ def pair(prog):
                           '' if ok else 'reader takes %d bytes of overhead for a %d-digit address record (must be %d)' % (
                               sub, digits, digits // 2 + 1), 'byte_count -= %d for %d address digits' % (sub, digits), False))
     return RuleResult('T-PAIR', obs, 10, {})
+
+
+def rec_sum(prog):
+    """REC-SUM: in the hex / S-record writers, wherever a whole record is printed by one fprintf whose last field is the
+    checksum, the value assigned to `checksum` just before equals, modulo 256, the sum of the bytes that fprintf prints
+    before the checksum field: literal hex digit pairs of the format, one byte per %02X, two per %04X, ...
+    Evaluated for 70 000 values of every free variable (all 16-bit patterns in the low and in the high half-word)."""
+    import re
+    obs = []
+    n_rec = 0
+    for q, file, skip in (('write_hex_line', 'fileio/write_hex.cpp', 1), ('write_srec_line', 'fileio/write_srec.cpp', 2)):
+        fn = prog.fn(q, file)
+        # locals with a single initialiser can be unfolded
+        inits = {}
+        for n in fn.nodes.values():
+            if n['k'] == 'DeclStmt':
+                for d, i in zip([x for x in n.get('decls', ()) if x.get('init')], kids(n)):
+                    inits[d['n']] = i
+
+        def ev(e, env, depth=0):
+            v = const(e)
+            if v is not None:
+                return v
+            e = strip(e, casts=False)
+            k = e['k']
+            c = kids(e)
+            if k in ('ImplicitCastExpr', 'CStyleCastExpr', 'ParenExpr', 'CXXStaticCastExpr'):
+                return ev(c[0], env, depth)
+            if k == 'UnaryOperator' and e.get('op') == '*':
+                return env.get(show(e).replace('(cast)', ''))
+            if k == 'DeclRefExpr':
+                if e['n'] in env:
+                    return env[e['n']]
+                if e['n'] in inits and depth < 4:
+                    return ev(inits[e['n']], env, depth + 1)
+                return None
+            if k == 'BinaryOperator':
+                a, b = ev(c[0], env, depth), ev(c[1], env, depth)
+                if a is None or b is None:
+                    return None
+                op = e['op']
+                return {'+': a + b, '-': a - b, '&': a & b, '|': a | b, '^': a ^ b, '<<': (a << b) & 0xffffffffffffffff if 0 <= b < 64 else None,
+                        '>>': a >> b if 0 <= b < 64 else None, '*': a * b}.get(op)
+            if k == 'UnaryOperator':
+                a = ev(c[0], env, depth)
+                return None if a is None else {'~': ~a, '-': -a, '+': a}.get(e['op'])
+            return None
+
+        for c in sorted(fn.calls(), key=lambda x: x['i']):
+            if callee(c) != 'fprintf':
+                continue
+            a = call_args(c)
+            lit = strip(a[1], casts=True)
+            if lit['k'] != 'StringLiteral' or not (lit.get('s') or '').endswith('\n') or len(a) < 3:
+                continue
+            if 'checksum' not in {x['n'] for x in walk(a[-1]) if x['k'] == 'DeclRefExpr'}:
+                continue
+            fmt = lit['s'][skip:-1] if lit['s'][:1] in (':', 'S') else lit['s'][:-1]
+            # tokenise: hex digit pairs and %0NX fields
+            toks = re.findall(r'%0?(\d*)[Xx]|([0-9A-Fa-f]{2})', fmt)
+            if ''.join(('%%0%sX' % w) if w else lit_ for w, lit_ in toks) .replace('%0X', '%X') != fmt.replace('%02x', '%02X') and \
+                    re.sub(r'%0?\d*[Xx]|[0-9A-Fa-f]{2}', '', fmt) != '':
+                continue        # a format this rule does not read (type character etc.)
+            fields = [w for w, lit_ in toks if not lit_]
+            if len(fields) != len(a) - 2:
+                continue
+            # the assignment to checksum that reaches the call: nearest preceding one in the same block
+            w = fn.where.get(c['i'])
+            asg = None
+            for n in fn.nodes.values():
+                if n['k'] == 'BinaryOperator' and n.get('op') == '=' and strip(kids(n)[0]).get('n') == 'checksum':
+                    w2 = fn.where.get(n['i'])
+                    if w2 and w and w2[0] == w[0] and w2[1] < w[1]:
+                        if asg is None or fn.where[asg['i']][1] < w2[1]:
+                            asg = n
+            if asg is None:
+                continue
+            n_rec += 1
+            # free leaves
+            leaves = set()
+            exprs = [kids(asg)[1]] + a[2:-1]
+            seen_loc = set()
+            qi = 0
+            while qi < len(exprs):
+                for x in walk(exprs[qi]):
+                    if x['k'] == 'DeclRefExpr' and x['n'] in inits and x['n'] not in seen_loc:
+                        seen_loc.add(x['n'])
+                        exprs.append(inits[x['n']])
+                qi += 1
+            for e in exprs:
+                for x in walk(e):
+                    if x['k'] == 'UnaryOperator' and x.get('op') == '*':
+                        leaves.add(show(x).replace('(cast)', ''))
+                    elif x['k'] == 'DeclRefExpr' and x.get('dk') in ('param', 'local') and x['n'] not in inits and x['n'] != 'checksum':
+                        leaves.add(x['n'])
+            leaves = sorted(l for l in leaves if not l.startswith('**'))
+            bad = None
+            tests = [v for v in range(0, 0x10000, 1)] + [v << 16 for v in range(1, 0x10000, 13)] + [0xffffffff, 0x12345678]
+            if len(leaves) > 1:
+                tests = tests[::97] + [0xffffffff, 0x01000000, 0x00ff0000]
+            import itertools
+            for combo in itertools.product(tests, repeat=max(1, len(leaves))) if len(leaves) <= 2 else [tuple([t] * len(leaves)) for t in tests]:
+                env = dict(zip(leaves, combo))
+                s_ = ev(kids(asg)[1], env)
+                if s_ is None:
+                    bad = 'not evaluable'
+                    break
+                tot = 0
+                ai = 2
+                okv = True
+                for w_, lit_ in toks[:-1] if not toks[-1][1] else toks:
+                    if lit_:
+                        tot += int(lit_, 16)
+                    else:
+                        v = ev(a[ai], env)
+                        ai += 1
+                        if v is None:
+                            okv = False
+                            break
+                        nb = max(1, (int(w_) if w_ else 2) // 2)
+                        v &= (1 << (8 * nb)) - 1
+                        for bi in range(nb):
+                            tot += (v >> (8 * bi)) & 0xff
+                if not okv:
+                    bad = 'not evaluable'
+                    break
+                if (s_ - tot) & 0xff:
+                    bad = (env, s_ & 0xff, tot & 0xff)
+                    break
+            if bad == 'not evaluable':
+                n_rec -= 1
+                continue
+            obs.append(Ob('REC-SUM', fn.file, c['l'], fn.q, 'record:%s' % lit['s'][:12], VIOLATED if bad else DISCHARGED,
+                          'with %s the bytes of the record `%s` add up to %#x but `checksum = %s` gives %#x: the record is written with a '
+                          'wrong checksum and readers reject the file' % (
+                              {k_: hex(v_) for k_, v_ in bad[0].items()}, lit['s'].strip(), bad[2], show(kids(asg)[1])[:50], bad[1]) if bad else '',
+                          'checksum equals the byte sum of the printed fields for every tested value'))
+    if n_rec < 1:
+        raise AnalysisBroken('REC-SUM: no whole-record fprintf with a checksum field recognised')
+    return RuleResult('REC-SUM', obs, 1, {})
